@@ -98,6 +98,7 @@ func specC01() *PropSpec {
 			pipeObl("VerifC01ThinShellHole", "both", "template: thin shell collapsing at tile matrix 0 only, with a triangular hole", "shell 4 + hole 3 vertices in pixels (7,7),(8,7), corner positions jittering on the 1/8 px lattice (valid by construction), ids {0,1}", "snapped", "has-geometry"),
 			{Harness: "VerifC01Quad2x2", Pkg: "snap", Mode: "math", Tiers: "thorough", Covers: []string{"snapped", "has-geometry"}, Subst: snapSubst,
 				Desc: "valid quadrilateral, 2x2 window", Bounds: "n=4, 2x2 px window, 2^-10 px lattice, id {0}, all flags"},
+			pipeObl("VerifC01Pent2x2Half", "thorough", "valid pentagon on the half lattice: no proper crossing"+timeBoxed, "n=5, 2x2 px window, positions {1/4,3/4}, id {0}, all flags", "snapped", "has-geometry"),
 			{Harness: "VerifC01Tri3x3", Pkg: "snap", Mode: "math", Tiers: "thorough", Covers: []string{"snapped", "has-geometry"}, Subst: snapSubst,
 				Desc: "valid triangle, 3x3 window", Bounds: "n=3, 3x3 px window, 2^-10 px lattice, id {0}, all flags"},
 			{Harness: "VerifC01Tri2x2TwoLevels", Pkg: "snap", Mode: "math", Tiers: "thorough", Covers: []string{"snapped", "has-geometry"}, Subst: snapSubst,
@@ -121,6 +122,8 @@ func pipeObl(h, tiers, desc, bounds string, covers ...string) Obligation {
 	return Obligation{Harness: h, Pkg: "snap", Mode: "math", Tiers: tiers, Covers: covers, Subst: snapSubst, Desc: desc, Bounds: bounds, Budget: 80000000}
 }
 
+const timeBoxed = " (time-boxed: exploration in random order, truncation reported)"
+
 var pipeAssumptions = []string{
 	"synthetic dyadic grid (root tile of 16 units, tile matrix z = 16*2^z pixels per axis), on which every float operation of the pipeline is exact; exactness is checked per operation by interval side-conditions and a path that cannot establish it is reported as inconclusive",
 	"pixel addresses of the vertices are case-split inside the stated window; sub-pixel positions are symbolic on the stated lattice",
@@ -140,12 +143,13 @@ func specC04() *PropSpec {
 			func() Obligation {
 				o := pipeObl("VerifC04ShellWithHole", "thorough", "template: fixed square shell with any valid triangular hole in the window: provenance, edge distance, and coverage agreement at 49 probe locations (pixel centres) wherever they are farther than one pixel from the input boundary", "hole n=3 in 2x2 px window, sub-pixel positions {1/4,3/4}, ids {0,1}, flags none and keep+reverse", "checked", "has-geometry")
 				o.Budget = 40000000
-				o.DeadlineSec = 1500
+				o.DeadlineSec = 1200
 				return o
 			}(),
 			{Harness: "VerifMatchInners", Pkg: "snap", Mode: "math", Tiers: "both", Internal: true, Covers: []string{"matched", "realistic-configuration"}, MapOrderBudget: 3,
 				Desc: "hole matching on catalogues of shells (nested, overlapping with equal area, touching, disjoint; 2-3 at a time, every order) and holes (every start vertex): attached exactly once, to a shell containing it, the smallest such; independent of map iteration order", Bounds: "7 shells x 7 holes catalogue, 2..3 shells, 1 hole"},
 			pipeObl("VerifC04Quad2x2Half", "thorough", "valid quadrilateral, half lattice", "n=4, 2x2 px window, sub-pixel positions {1/4,3/4}, ids {0,1}", "checked", "has-geometry"),
+			pipeObl("VerifC04Pent2x2Half", "thorough", "valid pentagon, half lattice"+timeBoxed, "n=5, 2x2 px window, sub-pixel positions {1/4,3/4}, id {0}", "checked", "has-geometry"),
 		}}
 }
 
@@ -172,6 +176,9 @@ func specC05() *PropSpec {
 				Desc: "O-7 on NetherlandsRDNewQuad id 14 (both ordinates off by one: rarer, slower to find)", Bounds: "search space: every pixel of level 26; up to 8 witnesses, 15 min"},
 			pipeObl("VerifC05Thin4", "both", "any 4-vertex ring in a thin window", "n=4, window of 2x1 pixels, sub-pixel positions {1/4,3/4}, ids {0,1}", "checked"),
 			pipeObl("VerifC05Thin5", "thorough", "any 5-vertex ring in a thin window", "n=5, window of 2x1 pixels, sub-pixel positions {1/4,3/4}, ids {0,1}", "checked"),
+			pipeObl("VerifC05Zigzag7Row", "thorough", "every 7-vertex sequence on the centres of a row of four pixels"+timeBoxed, "n=7, 4x1 px window, pixel centres, id {0}", "checked"),
+			pipeObl("VerifC05Zigzag6Square", "both", "every 6-vertex sequence on the centres of a 2x2 block", "n=6, 2x2 px window, pixel centres, id {0}", "checked"),
+			pipeObl("VerifC05Pent2x2Half", "thorough", "any 5-vertex ring on the half lattice"+timeBoxed, "n=5, 2x2 px window, sub-pixel positions {1/4,3/4}, id {0}", "checked"),
 			pipeObl("VerifC05Ring5Centre", "thorough", "any 5-vertex ring on pixel centres", "n=5, 3x3 px window, pixel centres, ids {0,1}", "checked"),
 			pipeObl("VerifC05Hole", "thorough", "any shell + hole of 3 vertices each", "3+3 vertices, 2x2 px window, sub-pixel positions {0,1/2}, id {0}", "checked"),
 		}}
@@ -192,6 +199,9 @@ func specC06() *PropSpec {
 			pipeObl("VerifC06BowtieHole", "both", "template: fixed square shell with a self-crossing four-vertex hole", "hole vertices pinned to pixels (5,5),(10,5),(5,10),(10,10), sub-pixel positions {1/4,3/4}, ids {0,1}", "ran"),
 			pipeObl("VerifC06Thin4", "both", "any 4-vertex ring in a thin window (vertices sharing a coarse pixel but not a fine one)", "n=4, window of 2x1 pixels, sub-pixel positions {1/4,3/4}, ids {0,1}", "ran"),
 			pipeObl("VerifC06Thin5", "thorough", "any 5-vertex ring in a thin window", "n=5, window of 2x1 pixels, sub-pixel positions {1/4,3/4}, ids {0,1}", "ran"),
+			pipeObl("VerifC06Zigzag8Row", "thorough", "every 8-vertex sequence on the centres of a row of four pixels (zig-zags of every period, repeated runs): no panic, with and without keep-points-and-lines"+timeBoxed, "n=8, 4x1 px window, pixel centres, id {0}", "ran"),
+			pipeObl("VerifC06Zigzag6Square", "both", "every 6-vertex sequence on the centres of a 2x2 block (zig-zags, spikes, repeated vertices): no panic, with and without keep-points-and-lines", "n=6, 2x2 px window, pixel centres, id {0}", "ran"),
+			pipeObl("VerifC06Zigzag7Square", "thorough", "every 7-vertex sequence on the centres of a 2x2 block"+timeBoxed, "n=7, 2x2 px window, pixel centres, id {0}", "ran"),
 			pipeObl("VerifC06Ring5Centre", "thorough", "any 5-vertex ring on pixel centres", "n=5, 3x3 px window, pixel centres, ids {0,1}", "ran"),
 			pipeObl("VerifC06Hole", "thorough", "any shell + hole of 3 vertices each", "3+3 vertices, 2x2 px window, sub-pixel positions {0,1/2}, id {0}", "ran"),
 		}}
@@ -199,11 +209,11 @@ func specC06() *PropSpec {
 
 func specC07() *PropSpec {
 	mo := pipeObl("VerifC07MapOrder", "both", "two executions, the second with a nondeterministic iteration order of every map range (forward/reversed, at most one reversed range per path)", "n=3 (any ring), 2x2 px window, pixel centres, ids {0,1}, flags none and keep+reverse", "twice")
-	mo3 := pipeObl("VerifC07MapOrderEdgy", "thorough", "same on pixel borders/corners/centres (time-boxed)", "n=3, 2x2 px window, sub-pixel positions {0,1/2}, ids {0,1}; time box 30 min", "twice")
-	mo3.DeadlineSec = 1800
+	mo3 := pipeObl("VerifC07MapOrderEdgy", "thorough", "same on pixel borders/corners/centres (time-boxed)", "n=3, 2x2 px window, sub-pixel positions {0,1/2}, ids {0,1}; time box 20 min", "twice")
+	mo3.DeadlineSec = 1200
 	mo2 := pipeObl("VerifC07MapOrderEdgy4", "thorough", "same for any 4-vertex ring on pixel centres, up to two reversed ranges per path", "n=4, 2x2 px window, pixel centres, ids {0,1}", "twice")
 	mo2.MapOrderBudget = 2
-	mo2.DeadlineSec = 1800
+	mo2.DeadlineSec = 1200
 	return &PropSpec{ID: "C07", NeedsGen: true, Assumptions: pipeAssumptions,
 		Outside: append([]string{"map iteration orders other than forward/reversed insertion order per range execution; more reversed ranges per path than stated", "goroutine scheduling (SnapPolygon starts no goroutines)"}, pipeOutside...),
 		Obligations: []Obligation{
@@ -215,15 +225,15 @@ func specC07() *PropSpec {
 				Desc: "hole matching on catalogues of shells (nested, overlapping with equal area, touching, disjoint; 2-3 at a time, every order) and holes (every start vertex): attached exactly once, to a shell containing it, the smallest such; independent of map iteration order", Bounds: "7 shells x 7 holes catalogue, 2..3 shells, 1 hole"},
 			pipeObl("VerifC07RingDirection", "both", "valid triangle given in either direction => identical result", "n=3, 2x2 px window, all sub-pixel positions (2^-10 px), id {0}, all flags", "both-directions"),
 			func() Obligation {
-				o := pipeObl("VerifC07RingDirectionHalf", "thorough", "valid ring of 3..4 vertices given in either direction, two levels (time-boxed)", "n=3..4, 2x2 px window, sub-pixel positions {1/4,3/4}, ids {0,1}, all flags; time box 35 min", "both-directions")
-				o.DeadlineSec = 2100
+				o := pipeObl("VerifC07RingDirectionHalf", "thorough", "valid ring of 3..4 vertices given in either direction, two levels (time-boxed)", "n=3..4, 2x2 px window, sub-pixel positions {1/4,3/4}, ids {0,1}, all flags; time box 20 min", "both-directions")
+				o.DeadlineSec = 1200
 				return o
 			}(),
 			pipeObl("VerifC07RingDirectionHole", "thorough", "square shell with triangular hole, any subset of rings reversed", "hole n=3 in 2x2 px window, positions {1/4,3/4}, id {0}", "both-directions"),
 			pipeObl("VerifC07ReverseFlag", "both", "reverse flag only reverses every ring of 3+ vertices", "n=4 (any ring), 2x2 px window, pixel centres, ids {0,1}, keep on/off", "both-flags"),
 			func() Obligation {
-				o := pipeObl("VerifC07ReverseFlagEdgy", "thorough", "same on pixel borders/corners/centres (time-boxed)", "n=3..4 (any ring), 2x2 px window, positions {0,1/2}, ids {0,1}; time box 30 min", "both-flags")
-				o.DeadlineSec = 1800
+				o := pipeObl("VerifC07ReverseFlagEdgy", "thorough", "same on pixel borders/corners/centres (time-boxed)", "n=3..4 (any ring), 2x2 px window, positions {0,1/2}, ids {0,1}; time box 20 min", "both-flags")
+				o.DeadlineSec = 1200
 				return o
 			}(),
 		}}
@@ -256,6 +266,10 @@ func specC18() *PropSpec {
 				Desc: "hole matching on catalogues of shells (nested, overlapping with equal area, touching, disjoint; 2-3 at a time, every order) and holes (every start vertex): attached exactly once, to a shell containing it, the smallest such; independent of map iteration order", Bounds: "7 shells x 7 holes catalogue, 2..3 shells, 1 hole"},
 			pipeObl("VerifC18Quad2x2Half", "thorough", "valid quadrilateral on the half lattice", "n=4, 2x2 px window, positions {1/4,3/4}, ids {0,1}", "premise-holds", "collapsing"),
 			pipeObl("VerifC18Pent3x3Centre", "thorough", "valid pentagon on pixel centres", "n=5, 3x3 px window, pixel centres, id {0}", "premise-holds"),
+			pipeObl("VerifC18Pent2x2Half", "thorough", "valid pentagon on the half lattice (thin bands with a closing slit, pinched necks)"+timeBoxed, "n=5, 2x2 px window, positions {1/4,3/4}, id {0}", "premise-holds", "collapsing"),
+			pipeObl("VerifC18ThinValid5", "thorough", "valid pentagon in a thin window, both tile matrices"+timeBoxed, "n=5, window of 2x1 pixels, positions {1/4,3/4}, ids {0,1}", "premise-holds", "collapsing"),
+			pipeObl("VerifC18ThinValid6", "thorough", "valid hexagon in a thin window, both tile matrices"+timeBoxed, "n=6, window of 2x1 pixels, positions {1/4,3/4}, ids {0,1}", "premise-holds", "collapsing"),
+			pipeObl("VerifC18Hex2x2Half", "thorough", "valid hexagon on the half lattice"+timeBoxed, "n=6, 2x2 px window, positions {1/4,3/4}, id {0}", "premise-holds", "collapsing"),
 		}}
 }
 
@@ -277,8 +291,8 @@ func specC14() *PropSpec {
 		Obligations: []Obligation{
 			{Harness: "VerifC14Symbolic", Pkg: "pointindex", Mode: "bits", Tiers: "both", Covers: []string{"accepted", "rejected"},
 				Desc: "symbolic tile matrix set of 1..4 matrices: accepted => every quadtree condition; never panics", Bounds: "all 64-bit widths/heights, all float64 origins (NaN, Inf included), cell-size ratios from {2, 1.99, 2.01, just outside, 1, 4, 0.5, Inf, NaN} per pair, one position with free id string / corner / variable widths / id gap"},
-			{Harness: "VerifC14SymbolicCells", Pkg: "pointindex", Mode: "bits", Tiers: "thorough", Covers: []string{"accepted", "rejected"}, DeadlineSec: 1500,
-				Desc: "same with fully symbolic float64 cell sizes (IEEE division decided by the solver; time-boxed)", Bounds: "all float64 cell sizes; time box 25 min"},
+			{Harness: "VerifC14SymbolicCells", Pkg: "pointindex", Mode: "bits", Tiers: "thorough", Covers: []string{"accepted", "rejected"}, DeadlineSec: 1200,
+				Desc: "same with fully symbolic float64 cell sizes (IEEE division decided by the solver; time-boxed)", Bounds: "all float64 cell sizes; time box 20 min"},
 			{Harness: "VerifC14BuiltIns", Pkg: "pointindex", Mode: "bits", Tiers: "both", Internal: true, Covers: []string{"builtin-accepted", "builtin-rejected"},
 				Desc: "each of the 14 built-in sets: rejected, or accepted with pixel size = cell size/16 at every id (concrete evaluation through the interpreter)", Bounds: "14 built-in sets x all ids with level <= 32"},
 		}}
@@ -293,8 +307,8 @@ func specC15() *PropSpec {
 				Desc: "every tile of every matrix up to 16x16 tiles (ids 0..3) of every built-in set without variable widths: corner -> centre -> same tile; half a tile outside -> no tile", Bounds: "14 built-in sets, ids 0..3, all tiles"},
 			{Harness: "VerifC15BorderTiles", Pkg: "tms20", Mode: "bits", Tiers: "both", Covers: []string{"roundtrip"},
 				Desc: "border tiles of every larger matrix (8 lowest / highest columns in the first and last row, and vice versa), addresses case-split, evaluated concretely through the interpreter", Bounds: "all built-in sets x ids >= 4 x 64 border tiles"},
-			{Harness: "VerifC15BorderSlicesQuick", Pkg: "tms20", Mode: "bits", Tiers: "thorough", Covers: []string{"roundtrip"}, TimeoutMs: 600000, DeadlineSec: 2400,
-				Desc: "symbolic tile address (one axis) in slices of 32 columns/rows at the ends of one deep matrix of RD, WebMercator and CRS84, exact IEEE-754 semantics decided by the solver (time-boxed: these queries take minutes each)", Bounds: "3 sets x 1 matrix x 8 slices of 32 tiles; time box 40 min"},
+			{Harness: "VerifC15BorderSlicesQuick", Pkg: "tms20", Mode: "bits", Tiers: "thorough", Covers: []string{"roundtrip"}, TimeoutMs: 600000, DeadlineSec: 1200,
+				Desc: "symbolic tile address (one axis) in slices of 32 columns/rows at the ends of one deep matrix of RD, WebMercator and CRS84, exact IEEE-754 semantics decided by the solver (time-boxed: these queries take minutes each)", Bounds: "3 sets x 1 matrix x 8 slices of 32 tiles; time box 20 min"},
 			{Harness: "VerifC15BoundingBox", Pkg: "tms20", Mode: "bits", Tiers: "both", Covers: []string{"bbox"},
 				Desc: "bounding box spans corner of tile (0,0) to corner of tile (width,height) in x,y order; ToNative accepts one past the end and rejects beyond", Bounds: "all built-in sets x all matrices without variable widths (concrete evaluation through the interpreter)"},
 		}}
